@@ -289,7 +289,11 @@ extern "C" void k_texcoords(void) {
   LiteMD md{&ct, &v2d};
   // position attribute over harness-owned storage (no allocation / size arithmetic in the set-up)
   int32_t store[NE * 3];
+#ifdef DEGENERATE_POSITIONS
+  for (int i = 0; i < NE * 3; ++i) store[i] = 7;     // all positions coincide: only the delta-coding fall-back paths run
+#else
   for (int i = 0; i < NE * 3; ++i) { store[i] = nondet_i32(); verif_assume(store[i] >= -(1 << 21) && store[i] < (1 << 21)); }  // quantized positions
+#endif
   DataBuffer buf; verif_adopt(buf.data_, (uint8_t *)store, sizeof(store), sizeof(store));
   GeometryAttribute ga; ga.Init(GeometryAttribute::POSITION, &buf, 3, DT_INT32, false, 12, 0);
   PointAttribute pos(ga); pos.SetIdentityMapping(); pos.num_unique_entries_ = NE;
